@@ -77,7 +77,8 @@ class PandasConstructMissingDf(Contract):
         cols = DictObj()
         for k in ["k0", "k1"][: self.fixed.get("n", 1)]:
             c = T.Ref(None, default=T.Any, name=T.Const(k)).fresh(f"column_{k}")
-            dt = Dt(I, k)
+            # a column may be declared WITHOUT a data type (`Column(default=1)`): nothing to coerce the default to
+            dt = Dt(I, k) if cur().choose([("declared", None), ("no_dtype", None)], f"dtype[{k}]") == 0 else None
             c.attrs["dtype"] = dt
             c.attrs0["dtype"] = dt
             dict.__setitem__(cols, k, c)
@@ -90,7 +91,8 @@ class PandasConstructMissingDf(Contract):
     def ensures(self, result, old, self_, obj, missing_cols_schema):
         casts = cur().ghost.get("casts", [])
         f = cur().ghost.get("frame")
-        return {"every_added_column_is_coerced_to_its_declared_dtype": [c[0] for c in casts] == list(missing_cols_schema) and result is f}
+        typed = [k for k, c in missing_cols_schema.items() if c.attrs0["dtype"] is not None]
+        return {"every_added_column_is_coerced_to_its_declared_dtype": [c[0] for c in casts] == typed and result is f}
 
     def on_raise(self, exc, old, self_, obj, missing_cols_schema):
         if exc.cls is not SchemaError:
